@@ -1022,6 +1022,7 @@ pub fn gen_event(rng: &mut Rng, w: &World, p: &Profile, st: &mut GenState) -> Ev
                 Event::Stream { msgs, suffix, list: rng.chance(2, 5) }
             }
         }
+        12 if rng.chance(1, 8) => Event::CutSweep { a: pristine_msg(rng), b: if rng.chance(2, 3) { pristine_msg(rng) } else { recent_msg(rng) } },
         12 => Event::SuffixSweep { msg: if rng.chance(3, 4) { pristine_msg(rng) } else { recent_msg(rng) }, fill: *rng.pick(&[0u8, 0x80, 0xc0, 0xf9, 0xff, 0x01]) },
         13 => {
             let (data, form) = gen_noise(rng);
@@ -1053,10 +1054,10 @@ pub fn gen_event(rng: &mut Rng, w: &World, p: &Profile, st: &mut GenState) -> Ev
         }
         18 => {
             *enums_done += 1;
-            if rng.chance(3, 4) {
-                Event::EnumFlips { msg: pristine_msg(rng) }
-            } else {
-                Event::EnumTruncs { msg: pristine_msg(rng) }
+            match rng.below(8) {
+                0..=4 => Event::EnumFlips { msg: pristine_msg(rng) },
+                5 => Event::EnumTruncs { msg: pristine_msg(rng) },
+                _ => Event::EnumEdits { msg: pristine_msg(rng), byte: *rng.pick(&[0u8, 0x01, 0x80, 0xff, 0x41]) },
             }
         }
         _ => Event::PoolCheck,
